@@ -26,6 +26,8 @@ import os
 import warnings
 
 os.environ.setdefault("NUMBA_CACHE_DIR", "/tmp/pv_numba_cache")
+# images here are tiny: numba's default of one thread per core only adds contention (measured 3x CPU for the same wall)
+os.environ.setdefault("NUMBA_NUM_THREADS", "2")
 
 import numpy as np
 import xarray as xr
@@ -272,15 +274,20 @@ def enumerate_domain(tier, seed):
         for img_seed in img_seeds:
             for masks, interval, name in itertools.product(MASK_VARIANTS, intervals, names):
                 count += 1
-                if tier == "quick" and shape == SIZES[1] and count % 3 != 1:
-                    continue  # quick: one third of the larger-size combinations
+                if tier == "quick":
+                    # quick: a Latin-square third of (mask variant x interval x pipeline) per size (every pipeline with
+                    # every mask variant and every interval at least once), plus every interval without masks at 12x16
+                    diagonal = (MASK_VARIANTS.index(masks) + intervals.index(interval) + names.index(name)
+                                + SIZES.index(shape)) % 3 == 0
+                    if not diagonal and not (shape == SIZES[0] and masks == "none"):
+                        continue
                 yield {"kind": "mirror", "shape": list(shape), "img_seed": img_seed, "masks": masks,
                        "interval": list(interval), "pipeline": name,
                        "right_disp_explicit": bool(count % 3 == 0)}
     for shape in SIZES:
         for img_seed in img_seeds:
             for masks, interval, name in itertools.product(MASK_VARIANTS, intervals[:1 if tier == "quick" else 3], names):
-                if tier == "quick" and (shape == SIZES[1]) != (masks == "both"):
+                if tier == "quick" and (shape, masks) not in ((SIZES[0], "none"), (SIZES[1], "both")):
                     continue
                 yield {"kind": "novalidation", "shape": list(shape), "img_seed": img_seed, "masks": masks,
                        "interval": list(interval), "pipeline": name, "right_disp_explicit": False}
@@ -329,8 +336,11 @@ def run(tier, seed):
               "interval either absent from the right dataset or given explicitly as [-b,-a]; plus the same pipelines "
               "without validation (right dataset empty; + cross-checking without filling leaves the left map)"
               % (INTERVALS_QUICK, INTERVALS_THOROUGH, len(PIPELINES)),
-        rule="cases = product(size, image seed(s) derived from --seed, mask variant, interval, pipeline), smaller size "
-             "first; a case is one (A=run(L,R,[a,b]), B=run(R,L,[-b,-a])) double execution of the real pandora.run; "
+        rule="thorough: cases = product(size, 3 image seeds derived from --seed, mask variant, interval, pipeline), "
+             "smaller size first; quick: one image seed, per size a Latin-square third of (mask variant x interval x "
+             "pipeline) (every pipeline meets every mask variant and every interval) plus all intervals x pipelines "
+             "without masks at 12x16; the no-validation cases use the first interval(s) only; a case is one "
+             "(A=run(L,R,[a,b]), B=run(R,L,[-b,-a])) double execution of the real pandora.run; "
              "it is distinct by that tuple and non-trivial when the right (resp. left for the no-validation cases) "
              "map has >= 4 valid pixels carrying >= 2 different disparities; comparison exact, NaN-aware, no "
              "tolerance (both sides are the same deterministic computation on equal inputs)")
@@ -340,7 +350,7 @@ def replay(witness):
     case = {k: witness[k] for k in ("kind", "shape", "img_seed", "masks", "interval", "pipeline", "right_disp_explicit")}
     try:
         failures, _, _ = evaluate(case)
-    except Exception as exc:
+    except Exception:
         return witness.get("clause") == "C08.run_completes" or "clause" not in witness
     if "clause" in witness:
         return any(clause == witness["clause"] for clause, _, _ in failures)
